@@ -16,6 +16,10 @@ def programs(thorough):
         out.append((f"indep{m}", WP.indep(m), m))
         out.append((f"split{m}", WP.split_m(m), m))
     out.append(("chains2x2", WP.chains(2, 2), 4))
+    # two branches whose successors become runnable in the opposite order of the node sort; one successor is split
+    N, C, O, W = WP.N, WP.C, WP.O, WP.W
+    out.append(("branch_split", ({"nodes": [N("p", C(1)), N("q", C(2)), N("x", b=O("p"), split="a", split_vals={"a": W("x")}),
+                                            N("y", O("q"))], "outs": ["x", "y"]}, {"x": [1, 2]}), 5))
     if thorough:
         out.append(("chains3x2", WP.chains(3, 2), 6))
         out.append(("chains2x3", WP.chains(2, 3), 6))
